@@ -457,6 +457,8 @@ def tr_get_formula_value(fn):
 
 PIN_LIST = [('engine.py', 'Engine', 'apply_user_actions'), ('engine.py', 'Engine', 'apply_doc_action'),
             ('engine.py', 'Engine', '_apply_one_user_action'), ('engine.py', 'Engine', 'get_formula_value'),
+            ('engine.py', 'Engine', '_recompute'), ('engine.py', 'Engine', '_recompute_one_cell'),
+            ('engine.py', 'Engine', '_use_node'), ('depend.py', 'Graph', 'invalidate_deps'),
             ('docmodel.py', 'DocModel', 'apply_auto_removes'), ('docmodel.py', 'DocModel', 'setAutoRemove'),
             ('docactions.py', 'DocActions', 'BulkAddRecord'), ('docactions.py', 'DocActions', 'BulkRemoveRecord'),
             ('docactions.py', 'DocActions', 'BulkUpdateRecord'), ('docactions.py', 'DocActions', 'ReplaceTableData'),
@@ -469,7 +471,7 @@ PIN_LIST = [('engine.py', 'Engine', 'apply_user_actions'), ('engine.py', 'Engine
 
 def generate():
   """(text of coq/gen/Rollback_gen.v, info dict)."""
-  trees = {f: parse(f) for f in ('engine.py', 'docactions.py', 'action_obj.py', 'action_summary.py', 'docmodel.py')}
+  trees = {f: parse(f) for f in ('engine.py', 'docactions.py', 'action_obj.py', 'action_summary.py', 'docmodel.py', 'depend.py')}
   eng, doc = trees['engine.py'], trees['docactions.py']
   out = ['(* GENERATED by /verif/harness/rb2v.py from sandbox/grist/{engine,docactions,action_obj,action_summary}.py',
          '   -- regenerated on every run; bridged to Model/Rollback.v in Proofs/Rollback_bridge.v. *)',
@@ -514,6 +516,10 @@ PIN_VALUES = {
   ('engine.py', 'Engine', 'apply_doc_action'): 'b8a0ea962e3635ab',
   ('engine.py', 'Engine', '_apply_one_user_action'): 'a74810b847b6936e',
   ('engine.py', 'Engine', 'get_formula_value'): '4bf6737bf2e3a8dc',
+  ('engine.py', 'Engine', '_recompute'): '5f8f64eb44da29a0',
+  ('engine.py', 'Engine', '_recompute_one_cell'): 'c8c4c113e0ee3d0d',
+  ('engine.py', 'Engine', '_use_node'): '5af138cbdfbaf5a1',
+  ('depend.py', 'Graph', 'invalidate_deps'): 'f36d2b5b981b9ac5',
   ('docmodel.py', 'DocModel', 'apply_auto_removes'): '02f9cc53a2b93422',
   ('docmodel.py', 'DocModel', 'setAutoRemove'): 'ba6c61c95d4c94e4',
   ('docactions.py', 'DocActions', 'BulkAddRecord'): '1b7c3f579472d60f',
